@@ -477,7 +477,12 @@ fn uncatalogued_validation(rep: &mut Report, only: Option<&str>) {
     }
     type Call = fn(&mut Pkg) -> std::io::Result<()>;
     // (name, optional first call that must succeed for the scenario to apply, call under test)
-    let scenarios: [(&str, Option<Call>, Call); 8] = [
+    let scenarios: [(&str, Option<Call>, Call); 11] = [
+        // the user table T itself was uncatalogued too (see `prep` below): its stream is an orphan in the container
+        ("recreate-uncatalogued-table-with-unstorable-column", None, |p| p.create_table("T", vec![msi::Column::build("K").primary_key().int16(), msi::Column::build("Wide").nullable().string(300)])),
+        ("recreate-uncatalogued-table-with-long-column-name", None, |p| p.create_table("T", vec![msi::Column::build("K").primary_key().int16(), msi::Column::build("C".repeat(40)).nullable().int16()])),
+        // _Validation kept, but its own description narrowed by hand (fewer categories than the built-in list)
+        ("create-table-with-category-outside-narrowed-validation", None, |p| p.create_table("G", vec![msi::Column::build("K").primary_key().int16(), msi::Column::build("Id").nullable().category(msi::Category::Guid).string(38)])),
         ("drop-user-table", None, |p| p.drop_table("T")),
         ("create-user-table", None, |p| p.create_table("N", vec![msi::Column::build("K").primary_key().int16(), msi::Column::build("E").nullable().enum_values(&["a", "b"]).string(4)])),
         ("create-_Validation-3-columns", None, |p| p.create_table("_Validation", std_cols("Table", 3))),
@@ -496,8 +501,21 @@ fn uncatalogued_validation(rep: &mut Report, only: Option<&str>) {
             let mut p = msi::Package::create(msi::PackageType::Installer, med.handle()).map_err(|e| e.to_string())?;
             p.create_table("T", vec![msi::Column::build("K").primary_key().int16(), msi::Column::build("V").nullable().string(0)]).map_err(|e| e.to_string())?;
             p.insert_rows(msi::Insert::into("T").row(vec![msi::Value::Int(1), msi::Value::from("t0x1 one")]).row(vec![msi::Value::Int(2), msi::Value::from("t0x2 two")])).map_err(|e| e.to_string())?;
-            p.delete_rows(msi::Delete::from("_Tables").with(msi::Expr::col("Name").eq(msi::Expr::string("_Validation")))).map_err(|e| e.to_string())?;
-            p.delete_rows(msi::Delete::from("_Columns").with(msi::Expr::col("Table").eq(msi::Expr::string("_Validation")))).map_err(|e| e.to_string())?;
+            if name.starts_with("recreate-uncatalogued-table") {
+                for (t, c) in [("_Tables", "Name"), ("_Columns", "Table"), ("_Validation", "Table")] {
+                    p.delete_rows(msi::Delete::from(t).with(msi::Expr::col(c).eq(msi::Expr::string("T")))).map_err(|e| e.to_string())?;
+                }
+            } else if name.contains("narrowed-validation") {
+                p.update_rows(
+                    msi::Update::table("_Validation")
+                        .set("Set", msi::Value::from("Text;Identifier;Formatted"))
+                        .with(msi::Expr::col("Table").eq(msi::Expr::string("_Validation")).and(msi::Expr::col("Column").eq(msi::Expr::string("Category")))),
+                )
+                .map_err(|e| e.to_string())?;
+            } else {
+                p.delete_rows(msi::Delete::from("_Tables").with(msi::Expr::col("Name").eq(msi::Expr::string("_Validation")))).map_err(|e| e.to_string())?;
+                p.delete_rows(msi::Delete::from("_Columns").with(msi::Expr::col("Table").eq(msi::Expr::string("_Validation")))).map_err(|e| e.to_string())?;
+            }
             p.into_inner().map_err(|e| e.to_string())?;
             let mut p = msi::Package::open(med.handle()).map_err(|e| e.to_string())?;
             if let Some(f) = first {
@@ -528,6 +546,9 @@ fn uncatalogued_validation(rep: &mut Report, only: Option<&str>) {
                 continue;
             }
         };
+        // every stream of the container (also those no catalog row mentions), by stored name and length
+        let _ = guarded(|| pkg.flush());
+        let entries_before = crate::fmt_codec::decode(&med.live()).ok().map(|d| d.entries);
         match guarded(|| call(&mut pkg)) {
             Err(p) => {
                 std::mem::forget(pkg);
@@ -548,6 +569,17 @@ fn uncatalogued_validation(rep: &mut Report, only: Option<&str>) {
                     continue;
                 }
                 let saved = guarded(|| pkg.flush()).ok().and_then(|r| r.ok()).map(|_| reopen_observe(&med.live()));
+                if let (Some(eb), Ok(d)) = (&entries_before, crate::fmt_codec::decode(&med.live())) {
+                    if *eb != d.entries {
+                        let gone: Vec<&String> = eb.iter().filter(|x| !d.entries.contains(x)).map(|x| &x.0).collect();
+                        let new: Vec<&String> = d.entries.iter().filter(|x| !eb.contains(x)).map(|x| &x.0).collect();
+                        rep.violation(
+                            format!("C04/uncatalogued-validation/{}/container-entries-changed", name),
+                            format!("[{}] returned an error ({}) but the container's streams changed: gone or resized {:?}, new or resized {:?}", name, e, gone, new),
+                            w.clone(),
+                        );
+                    }
+                }
                 match saved {
                     Some(Ok(o)) => {
                         if let Some(d) = before.diff(&o) {
@@ -588,12 +620,12 @@ pub fn run(ctx: &Ctx) -> Report {
     let mut rep = parallel(ctx.threads, |shard, n| {
         let mut rep = Report::new();
         // refused calls at the capacity limits (row limit, full pool, nearly full pool)
-        for (i, which) in [0usize, 1, 2, 5].into_iter().enumerate() {
-            if (n >= 4 && shard == i) || (n < 4 && shard == 0) {
+        for (i, which) in [0usize, 1, 2, 5, 7].into_iter().enumerate() {
+            if (n >= 5 && shard == i) || (n < 5 && shard == 0) {
                 crate::props::c20::capacity_for("C04", which, &mut rep);
             }
         }
-        if shard == 4 % n {
+        if shard == 5 % n {
             uncatalogued_validation(&mut rep, None);
         }
         let mut k = 0usize;
